@@ -1,16 +1,420 @@
 package main
 
-// Thread mode hooks. In sequential mode these are no-ops; threads.go is
-// extended later with the scheduler and the happens-before race detector.
+// Thread mode (C10/C11). vGo(f) registers a goroutine of the harness; vJoin()
+// runs them to completion under a scheduler that explores every interleaving
+// at the granularity of synchronisation operations (Lock/Unlock/RLock/RUnlock,
+// goroutine start and exit): at each such point the explorer forks over the
+// enabled goroutines. Every heap access is checked against the Go memory
+// model's happens-before relation with vector clocks (FastTrack style): two
+// accesses to the same cell by different goroutines, at least one a write,
+// not ordered by happens-before in the explored schedule, are a data race.
+// Because a race-free program is sequentially consistent, switching only at
+// synchronisation operations is then complete for results.
+//
+// Each goroutine of the program under test is a host goroutine; exactly one
+// runs at a time (hand-off through channels), so the interpreter state needs no
+// locking of its own.
+
+import (
+	"fmt"
+	"os"
+	"sort"
+)
+
+type vclock []int
+
+func (c vclock) copy() vclock { return append(vclock(nil), c...) }
+func (c vclock) join(o vclock) vclock {
+	for len(c) < len(o) {
+		c = append(c, 0)
+	}
+	for i, v := range o {
+		if v > c[i] {
+			c[i] = v
+		}
+	}
+	return c
+}
+func (c vclock) get(i int) int {
+	if i < len(c) {
+		return c[i]
+	}
+	return 0
+}
+
+type access struct {
+	tid, clk int
+	pos      string
+}
+
+type cellMeta struct {
+	w  access   // last write
+	rs []access // reads since the last write (one per goroutine)
+}
+
+type muState struct {
+	writer  int // goroutine id holding the write lock, -1 none
+	readers map[int]int
+	lw, lr  vclock // released by writers / by readers
+}
+
+type pendingOp struct {
+	mu *Value
+	op string
+}
+
+type gthread struct {
+	id      int
+	fn      Value
+	clock   vclock
+	wake    chan struct{}
+	started bool
+	done    bool
+	pending *pendingOp
+	label   string
+}
+
+type threadKilled struct{}
+
+type threadState struct {
+	in       *Interp
+	threads  []*gthread // index 0 = the harness's main goroutine
+	cur      int
+	running  bool // inside vJoin
+	mainCh   chan struct{}
+	abort    interface{} // panic value raised inside a goroutine
+	killed   bool
+	mus      map[*Value]*muState
+	cells    map[*Value]*cellMeta
+	maps     map[*Map]*cellMeta
+	poolRel  map[*Value]vclock
+	races    map[string]bool
+	Switches int
+}
+
+func (in *Interp) threadMode() *threadState {
+	if in.th == nil {
+		main := &gthread{id: 0, clock: vclock{1}, started: true}
+		in.th = &threadState{in: in, threads: []*gthread{main}, mainCh: make(chan struct{}), mus: map[*Value]*muState{},
+			cells: map[*Value]*cellMeta{}, maps: map[*Map]*cellMeta{}, poolRel: map[*Value]vclock{}, races: map[string]bool{}}
+	}
+	return in.th
+}
+
+func (t *threadState) curThread() *gthread { return t.threads[t.cur] }
+
+func (t *threadState) tick() {
+	g := t.curThread()
+	for len(g.clock) <= g.id {
+		g.clock = append(g.clock, 0)
+	}
+	g.clock[g.id]++
+}
+
+// ---- access checks ----
+
+func (t *threadState) raceFound(kind string, a access, pos string) {
+	key := kind + "|" + a.pos + "|" + pos
+	if t.races[key] {
+		return
+	}
+	t.races[key] = true
+	if os.Getenv("GOSYM_DEBUG_RACE") != "" {
+		fmt.Fprintf(os.Stderr, "RACE %s prev=%+v cur=%d clock=%v poolRel=%d\n", kind, a, t.cur, t.curThread().clock, len(t.poolRel))
+	}
+	t.in.recordFinding("race", "C10 no data race", fmt.Sprintf("%s: %s (goroutine %d) and %s (goroutine %d) are not ordered by happens-before", kind, a.pos, a.tid, pos, t.cur))
+}
+
+func (t *threadState) check(m *cellMeta, write bool) {
+	g := t.curThread()
+	pos := t.in.posStr(t.in.curPos)
+	if m.w.tid != g.id && m.w.clk > g.clock.get(m.w.tid) && m.w.clk > 0 {
+		if write {
+			t.raceFound("write/write", m.w, pos)
+		} else {
+			t.raceFound("write/read", m.w, pos)
+		}
+	}
+	if write {
+		for _, r := range m.rs {
+			if r.tid != g.id && r.clk > g.clock.get(r.tid) {
+				t.raceFound("read/write", r, pos)
+			}
+		}
+		m.w = access{tid: g.id, clk: g.clock.get(g.id), pos: pos}
+		m.rs = m.rs[:0]
+		return
+	}
+	for i := range m.rs {
+		if m.rs[i].tid == g.id {
+			m.rs[i] = access{tid: g.id, clk: g.clock.get(g.id), pos: pos}
+			return
+		}
+	}
+	m.rs = append(m.rs, access{tid: g.id, clk: g.clock.get(g.id), pos: pos})
+}
+
+func (t *threadState) access(in *Interp, p *Value, write bool) {
+	if p == nil {
+		return
+	}
+	m := t.cells[p]
+	if m == nil {
+		m = &cellMeta{}
+		t.cells[p] = m
+	}
+	t.check(m, write)
+}
+
+func (t *threadState) mapAccess(mp *Map, write bool) {
+	if mp == nil {
+		return
+	}
+	m := t.maps[mp]
+	if m == nil {
+		m = &cellMeta{}
+		t.maps[mp] = m
+	}
+	t.check(m, write)
+}
+
+// ---- scheduling ----
+
+// yield hands control back to the scheduler (vJoin in the main goroutine) and waits to be resumed.
+func (t *threadState) yield(g *gthread) {
+	t.mainCh <- struct{}{}
+	<-g.wake
+	if t.killed {
+		panic(threadKilled{})
+	}
+}
+
+func (t *threadState) enabled(g *gthread) bool {
+	if g.done {
+		return false
+	}
+	if g.pending == nil {
+		return true
+	}
+	mu := t.muOf(g.pending.mu)
+	switch g.pending.op {
+	case "Lock":
+		return mu.writer < 0 && len(mu.readers) == 0
+	case "RLock":
+		return mu.writer < 0
+	}
+	return true
+}
+
+func (t *threadState) muOf(p *Value) *muState {
+	m := t.mus[p]
+	if m == nil {
+		m = &muState{writer: -1, readers: map[int]int{}}
+		t.mus[p] = m
+	}
+	return m
+}
+
+func (t *threadState) lockOp(in *Interp, mu *Value, op string) {
+	g := t.curThread()
+	if t.running && g.id != 0 {
+		g.pending = &pendingOp{mu: mu, op: op}
+		t.yield(g) // scheduling point before every synchronisation operation
+		g.pending = nil
+	}
+	m := t.muOf(mu)
+	switch op {
+	case "Lock":
+		if m.writer >= 0 || len(m.readers) > 0 {
+			if !t.running || g.id == 0 {
+				in.recordFinding("deadlock", "C10 no deadlock", "Lock on a mutex that is already held, outside any goroutine")
+				panic(pathEnd{"deadlock"})
+			}
+			panic(engineErr("scheduler resumed a goroutine whose Lock is not enabled"))
+		}
+		m.writer = g.id
+		g.clock = g.clock.join(m.lw).join(m.lr)
+	case "RLock":
+		if m.writer >= 0 {
+			if !t.running || g.id == 0 {
+				in.recordFinding("deadlock", "C10 no deadlock", "RLock on a mutex that is write-locked, outside any goroutine")
+				panic(pathEnd{"deadlock"})
+			}
+			panic(engineErr("scheduler resumed a goroutine whose RLock is not enabled"))
+		}
+		m.readers[g.id]++
+		g.clock = g.clock.join(m.lw)
+	case "Unlock":
+		if m.writer != g.id {
+			in.tpanic("explicit", "fatal error: sync: Unlock of unlocked RWMutex")
+		}
+		m.writer = -1
+		m.lw = g.clock.copy()
+		t.tick()
+	case "RUnlock":
+		if m.readers[g.id] == 0 {
+			in.tpanic("explicit", "fatal error: sync: RUnlock of unlocked RWMutex")
+		}
+		m.readers[g.id]--
+		if m.readers[g.id] == 0 {
+			delete(m.readers, g.id)
+		}
+		m.lr = m.lr.join(g.clock)
+		t.tick()
+	}
+}
+
+func (t *threadState) syncPoint(in *Interp, what string) {}
+
+// pool hand-off: Put(x) happens before the Get that returns x
+func (t *threadState) poolPut(x Value) {
+	if itf, ok := x.(Iface); ok {
+		if p, ok := itf.V.(*Value); ok && p != nil {
+			t.poolRel[p] = t.curThread().clock.copy()
+			t.tick()
+		}
+	}
+}
+
+func (t *threadState) poolGet(x Value) {
+	if itf, ok := x.(Iface); ok {
+		if p, ok := itf.V.(*Value); ok && p != nil {
+			if c, ok := t.poolRel[p]; ok {
+				g := t.curThread()
+				g.clock = g.clock.join(c)
+			}
+		}
+	}
+}
+
+func (t *threadState) spawn(in *Interp, fr *frame, fn Value, a []Value) {
+	panic(engineErr("go statement: use vGo in harnesses"))
+}
+
+// vGo registers a goroutine; it starts running inside vJoin.
+func (t *threadState) register(fn Value) {
+	g := &gthread{id: len(t.threads), fn: fn, wake: make(chan struct{})}
+	t.threads = append(t.threads, g)
+}
+
+// join runs all registered goroutines to completion, exploring the schedules.
+func (t *threadState) join(in *Interp, fr *frame) {
+	main := t.threads[0]
+	for _, g := range t.threads[1:] {
+		if !g.started {
+			g.clock = main.clock.copy() // goroutine start: everything main did happens before
+			for len(g.clock) <= g.id {
+				g.clock = append(g.clock, 0)
+			}
+			g.clock[g.id] = 1
+		}
+	}
+	t.tick()
+	t.running = true
+	defer func() {
+		t.running = false
+		// make sure no host goroutine stays blocked
+		t.killed = true
+		for _, g := range t.threads[1:] {
+			if g.started && !g.done {
+				g.done = true
+				g.wake <- struct{}{}
+				<-t.mainCh
+			}
+		}
+		t.killed = false
+	}()
+	for {
+		var en []*gthread
+		unfinished := 0
+		for _, g := range t.threads[1:] {
+			if !g.done {
+				unfinished++
+				if t.enabled(g) {
+					en = append(en, g)
+				}
+			}
+		}
+		if unfinished == 0 {
+			break
+		}
+		if len(en) == 0 {
+			in.recordFinding("deadlock", "C10 no deadlock", "all remaining goroutines are blocked")
+			panic(pathEnd{"deadlock"})
+		}
+		pick := 0
+		if len(en) > 1 {
+			pick = in.ex.choose("schedule", make([]*Term, len(en)))
+			t.Switches++
+		}
+		g := en[pick]
+		t.cur = g.id
+		if !g.started {
+			g.started = true
+			go t.runThread(in, fr, g)
+		} else {
+			g.wake <- struct{}{}
+		}
+		<-t.mainCh
+		t.cur = 0
+		if t.abort != nil {
+			a := t.abort
+			t.abort = nil
+			panic(a)
+		}
+	}
+	// join: everything the goroutines did happens before what main does next
+	for _, g := range t.threads[1:] {
+		main.clock = main.clock.join(g.clock)
+	}
+	t.threads = t.threads[:1]
+}
+
+func (t *threadState) runThread(in *Interp, fr *frame, g *gthread) {
+	defer func() {
+		if r := recover(); r != nil {
+			if _, k := r.(threadKilled); !k {
+				t.abort = r
+			}
+		}
+		g.done = true
+		t.mainCh <- struct{}{}
+	}()
+	savedDepth := in.depth
+	in.call(fr, 0, g.fn, nil)
+	in.depth = savedDepth
+	t.tick()
+}
+
+func sortedInts(m map[int]int) []int {
+	var ks []int
+	for k := range m {
+		ks = append(ks, k)
+	}
+	sort.Ints(ks)
+	return ks
+}
+
+// ---- hooks used by the interpreter ----
 
 func (in *Interp) onRead(p *Value) {
-	if in.th != nil {
+	if in.th != nil && in.th.running {
 		in.th.access(in, p, false)
 	}
 }
 func (in *Interp) onWrite(p *Value) {
-	if in.th != nil {
+	if in.th != nil && in.th.running {
 		in.th.access(in, p, true)
+	}
+}
+func (in *Interp) onMapRead(m *Map) {
+	if in.th != nil && in.th.running {
+		in.th.mapAccess(m, false)
+	}
+}
+func (in *Interp) onMapWrite(m *Map) {
+	if in.th != nil && in.th.running {
+		in.th.mapAccess(m, true)
 	}
 }
 
@@ -22,17 +426,31 @@ func (in *Interp) lockOp(mu Value, op string) {
 	in.event("sync." + op)
 }
 
-func (in *Interp) syncPoint(what string) {
-	if in.th != nil {
-		in.th.syncPoint(in, what)
+func (in *Interp) syncPoint(what string) {}
+
+func (in *Interp) onPoolPut(x Value) {
+	if in.th != nil && in.th.running {
+		in.th.poolPut(x)
 	}
 }
 
-func (in *Interp) onPoolPut(x Value) {}
+func (in *Interp) onPoolGet(x Value) {
+	if in.th != nil && in.th.running {
+		in.th.poolGet(x)
+	}
+}
 
 func (in *Interp) spawn(fr *frame, fn Value, args []Value) {
-	if in.th == nil {
-		panic(engineErr("go statement outside thread mode"))
+	panic(engineErr("go statement outside a harness: use vGo"))
+}
+
+func init() {
+	harnessAPI["vGo"] = func(in *Interp, fr *frame, a []Value) Value {
+		in.threadMode().register(a[0])
+		return nil
 	}
-	in.th.spawn(in, fr, fn, args)
+	harnessAPI["vJoin"] = func(in *Interp, fr *frame, a []Value) Value {
+		in.threadMode().join(in, fr)
+		return nil
+	}
 }
